@@ -184,6 +184,10 @@ func newHost(cpuMap types.CPUMap, shareBase int, maxFragmentCores int) *host {
 
 func (h *host) getCPUPlans(cpuRequest float64) []types.CPUMap {
 	piecesRequest := int(math.Round(cpuRequest * float64(h.shareBase)))
+	if piecesRequest <= 0 {
+		// less than one piece: nothing can be bound (and zero full cores would never terminate)
+		return nil
+	}
 	full := piecesRequest / h.shareBase
 	fragment := piecesRequest % h.shareBase
 
